@@ -438,7 +438,7 @@ class C11(ProbeMixin, HistProp):
         out = []
         for k in range(n):
             sub = random.Random(rng.randrange(1 << 30))
-            kind = sub.choice(['shuffle_col', 'sample_col', 'shuffle_horiz', 'orders', 'sample_err'])
+            kind = sub.choice(['shuffle_col', 'sample_col', 'shuffle_horiz', 'shuffle_horiz_one', 'orders', 'sample_err'])
             problem = None
             with warnings.catch_warnings():
                 warnings.simplefilter('ignore')
@@ -486,6 +486,19 @@ class C11(ProbeMixin, HistProp):
                         sel = d2.u != 2
                         if sorted(sel.column_names) != ['a', 'b', 'f', 'u'] or list(sel.u) != [0, 1, 3, 4]:
                             problem = 'selection on the shuffle_horiz result lost columns or rows'
+                    elif kind == 'shuffle_horiz_one':
+                        # a single column (or a one-column table): nothing to permute, but still a new, independent table
+                        one = dm[('a',)] if sub.random() < 0.5 else None
+                        d2 = ops.shuffle_horiz(one) if one is not None else ops.shuffle_horiz(dm.a)
+                        src = one if one is not None else dm
+                        if d2 is src or any(c is src._cols.get(n_) for n_, c in d2._cols.items()):
+                            problem = 'shuffle_horiz of a single column returned (part of) its source'
+                        else:
+                            snap = [list(c) for _n, c in src.columns]
+                            d2.a[0] = 'changed'
+                            d2.length = len(d2) + 1
+                            if snap != [list(c) for _n, c in src.columns] or len(src) != 5:
+                                problem = 'editing the result of a single-column shuffle_horiz changed the source'
                     else:
                         orders = set()
                         for sd in range(20):
